@@ -117,3 +117,147 @@ fn ret_array_of_pairs(n: u8) -> Array<(u8, felt252)> {
     while i != n % 4 { a.append((i, i.into() * 100)); i += 1; }
     a
 }
+
+// ---- element types wider than two cells (the CASM of array_get / array_slice / multi_pop is
+// generic over the element size), spans taken before later appends (data lies right behind the
+// span's end), and pops of 3, 4, 6 cells.
+#[derive(Copy, Drop)]
+struct Wide3 {
+    a: felt252,
+    b: felt252,
+    c: felt252,
+}
+#[derive(Copy, Drop)]
+struct Wide5 {
+    a: u128,
+    b: u256,
+    c: felt252,
+    d: u8,
+}
+fn wide3_get_behind_span(n: u8, idx: u32) -> felt252 {
+    let mut arr: Array<Wide3> = array![];
+    let mut i: u8 = 0;
+    while i != n % 4 { arr.append(Wide3 { a: i.into(), b: 100 + i.into(), c: 200 + i.into() }); i += 1; }
+    let sp = arr.span();
+    arr.append(Wide3 { a: 7001, b: 7002, c: 7003 });
+    arr.append(Wide3 { a: 8001, b: 8002, c: 8003 });
+    let res = match sp.get(idx) {
+        Some(x) => { let w = *x.unbox(); w.a + w.b * 3 + w.c * 5 },
+        None => 999,
+    };
+    res * 2 + (*arr.at(arr.len() - 1)).b
+}
+fn wide3_arg_get(a: Array<Wide3>, idx: u32) -> felt252 {
+    match a.get(idx) { Some(x) => { let w = *x.unbox(); w.a + w.b * 3 + w.c * 5 }, None => 999 }
+}
+fn wide5_get_behind_span(n: u8, idx: u32) -> felt252 {
+    let mut arr: Array<Wide5> = array![];
+    let mut i: u8 = 0;
+    while i != n % 3 { arr.append(Wide5 { a: i.into(), b: 5_u256, c: 9, d: i }); i += 1; }
+    let sp = arr.span();
+    arr.append(Wide5 { a: 77, b: 78_u256, c: 79, d: 80 });
+    let res = match sp.get(idx) {
+        Some(x) => { let w = *x.unbox(); w.a.into() + w.c * 3 + w.d.into() * 7 + w.b.low.into() },
+        None => 999,
+    };
+    res * 2 + (*arr.at(arr.len() - 1)).c
+}
+fn wide3_slice_exact(n: u8, start: u32, len: u32) -> felt252 {
+    let mut arr: Array<Wide3> = array![];
+    let mut i: u8 = 0;
+    while i != n % 5 { arr.append(Wide3 { a: i.into(), b: 100 + i.into(), c: 200 + i.into() }); i += 1; }
+    let sp = arr.span();
+    arr.append(Wide3 { a: 7001, b: 7002, c: 7003 });
+    if start > 8 || len > 8 { return 1; }
+    let sl = sp.slice(start, len);
+    let mut s: felt252 = sl.len().into();
+    let mut sl = sl;
+    loop {
+        match sl.pop_front() { Some(x) => { s = s * 13 + *x.a + *x.c; }, None => { break; } }
+    }
+    s * 2 + (*arr.at(arr.len() - 1)).a
+}
+fn wide3_arg_slice(a: Array<Wide3>, start: u32, len: u32) -> felt252 {
+    let sp = a.span();
+    let sl = sp.slice(start, len);
+    sl.len().into() * 1000 + (if sl.len() == 0 { 0 } else { *sl.at(0).b })
+}
+fn multi_pop_front3_behind(n: u8) -> felt252 {
+    let mut arr: Array<felt252> = array![];
+    let mut i: u8 = 0;
+    while i != n % 8 { arr.append(10 + i.into()); i += 1; }
+    let mut sp = arr.span();
+    arr.append(9001);
+    arr.append(9002);
+    arr.append(9003);
+    let res = match sp.multi_pop_front::<3>() {
+        Some(b) => { let [x, y, z] = (*b).unbox(); x + 2 * y + 3 * z + sp.len().into() * 100 },
+        None => 55 + sp.len().into(),
+    };
+    res * 2 + *arr.at(arr.len() - 1)
+}
+fn multi_pop_back3_behind(n: u8) -> felt252 {
+    let mut arr: Array<felt252> = array![];
+    let mut i: u8 = 0;
+    while i != n % 8 { arr.append(10 + i.into()); i += 1; }
+    let mut sp = arr.span();
+    arr.append(9001);
+    let res = match sp.multi_pop_back::<3>() {
+        Some(b) => { let [x, y, z] = (*b).unbox(); x + 2 * y + 3 * z + sp.len().into() * 100 },
+        None => 56 + sp.len().into(),
+    };
+    res * 2 + *arr.at(arr.len() - 1)
+}
+fn multi_pop_front6(a: Array<felt252>) -> felt252 {
+    let mut sp = a.span();
+    match sp.multi_pop_front::<6>() {
+        Some(b) => { let [x, y, z, u, v, w] = (*b).unbox(); x + 2 * y + 3 * z + 4 * u + 5 * v + 6 * w + sp.len().into() * 100 },
+        None => 57,
+    }
+}
+fn multi_pop_front_u256x3(a: Array<u256>) -> felt252 {
+    let mut sp = a.span();
+    match sp.multi_pop_front::<3>() {
+        Some(b) => { let [x, y, z] = (*b).unbox(); x.low.into() + 2 * y.high.into() + 3 * z.low.into() + sp.len().into() * 100 },
+        None => 58,
+    }
+}
+fn multi_pop_back4(a: Array<u64>) -> felt252 {
+    let mut sp = a.span();
+    match sp.multi_pop_back::<4>() {
+        Some(b) => { let [x, y, z, w] = (*b).unbox(); x.into() + 2 * y.into() + 3 * z.into() + 4 * w.into() + sp.len().into() * 100 },
+        None => 59,
+    }
+}
+// Index exactly at the end of the span (the boundary of array_get's range proof), with data behind it.
+fn wide3_get_at_len(n: u8) -> felt252 {
+    let mut arr: Array<Wide3> = array![];
+    let mut i: u8 = 0;
+    while i != n % 4 { arr.append(Wide3 { a: i.into(), b: 100 + i.into(), c: 200 + i.into() }); i += 1; }
+    let sp = arr.span();
+    arr.append(Wide3 { a: 7001, b: 7002, c: 7003 });
+    let res = match sp.get((n % 4).into()) {
+        Some(x) => { let w = *x.unbox(); w.a + w.b * 3 + w.c * 5 },
+        None => 999,
+    };
+    let last = *arr.at(arr.len() - 1);
+    res * 2 + last.c
+}
+fn felt_get_at_len(n: u8) -> felt252 {
+    let mut arr: Array<felt252> = array![];
+    let mut i: u8 = 0;
+    while i != n % 4 { arr.append(i.into() + 40); i += 1; }
+    let sp = arr.span();
+    arr.append(7001);
+    let res = match sp.get((n % 4).into()) { Some(x) => *x.unbox(), None => 999 };
+    res * 2 + *arr.at(arr.len() - 1)
+}
+fn u256_get_at_len(n: u8) -> felt252 {
+    let mut arr: Array<u256> = array![];
+    let mut i: u8 = 0;
+    while i != n % 4 { arr.append(i.into()); i += 1; }
+    let sp = arr.span();
+    arr.append(7001_u256);
+    let res: felt252 = match sp.get((n % 4).into()) { Some(x) => (*x.unbox()).low.into(), None => 999 };
+    res * 2 + (*arr.at(arr.len() - 1)).low.into()
+}
